@@ -7,6 +7,7 @@
 #
 # @author Davide Brunato <brunato@sissa.it>
 #
+from copy import copy
 import datetime
 import importlib
 from collections.abc import Iterator, Sequence, Callable
@@ -353,7 +354,9 @@ class XPathContext:
         """
         if varnames is None:
             varnames = []
-        iterators = [x(self) for x in selectors]
+        # Each range expression is evaluated with the focus of the whole expression:
+        # use a copy of the context (variables are shared) for each selector.
+        iterators = [x(copy(self)) for x in selectors]
         dimension = len(iterators)
         prod = [None] * dimension
         max_index = dimension - 1
@@ -375,7 +378,7 @@ class XPathContext:
             else:
                 if not k:
                     return
-                iterators[k] = selectors[k](self)
+                iterators[k] = selectors[k](copy(self))
                 k -= 1
 
     ##
